@@ -14,12 +14,13 @@ theorem finishPhase_eq (c : Cfg) (s : S) : finishPhase c s = finishOf (processEr
   split <;> simp_all
 
 /-- `Base` only looks at the trace, the ledger fields and a few flags -/
-theorem base_transfer (c : Cfg) (ar aq : Nat) (s s' : S) (b : Base c ar aq s) (hcl : s'.cleaned = false) (how : c.oneway = false)
+theorem base_transfer (c : Cfg) (ar aq : Nat) (s s' : S) (b : Base c ar aq s) (hcl : s'.cleaned = false)
+    (h21 : K21 c s')
     (ht : s'.trace = s.trace) (hrs : s'.respStarted = s.respStarted) (hst : s'.streams = s.streams)
     (hrq : s'.requests = s.requests) (hua : s'.upActive = s.upActive) (hup : s'.up = s.up)
     (hda : s'.downActive = s.downActive) (hc0 : s.cleaned = false) (h9 : K9 c ar s') (h31 : K31 s') : Base c ar aq s' := by
   obtain ⟨k1, k2, k4, k9, k10, k11, k12, k13, k14, k20, k21, k22, k31⟩ := b
-  refine ⟨?_, ?_, ?_, h9, ?_, ?_, ?_, ?_, ?_, ?_, ?_, ?_, h31⟩
+  refine ⟨?_, ?_, ?_, h9, ?_, ?_, ?_, ?_, ?_, ?_, h21, ?_, h31⟩
   · simpa [K1, ht] using k1
   · simpa [K2, ht, hrs] using k2
   · simpa [K4, ht, hcl, hc0] using k4
@@ -28,8 +29,7 @@ theorem base_transfer (c : Cfg) (ar aq : Nat) (s s' : S) (b : Base c ar aq s) (h
   · simpa [K12, hda, hcl, hc0] using k12
   · intro hh; simp [hcl] at hh
   · simpa [K14, streamsOk, hst, hup] using k14
-  · intro hh; simp [how] at hh
-  · intro hh; simp [how] at hh
+  · simpa [K20, hst] using k20
   · simpa [K22, hst] using k22
 
 /-- no retry: clean up the timers and answer with the error reply of the reset reason -/
@@ -45,7 +45,7 @@ theorem finish_branch (c : Cfg) (ar aq : Nat) (s : S) (r : Reason) (b : Base c a
   generalize hh : sendHijack { orFlag (cleanUp c s) (reasonToFlag r) with upReset := false } (reasonToCode r) false = h
   have hb : Base c ar aq h := by
     subst hh
-    apply base_transfer c ar aq s _ b (by simp [sendHijack, orFlag, hcl]) how <;> try (simp [sendHijack, orFlag])
+    apply base_transfer c ar aq s _ b (by simp [sendHijack, orFlag, hcl]) (fun ho => by simp [how] at ho) <;> try (simp [sendHijack, orFlag])
     · exact hcl
     · have := hcu.2.2.1
       have h9 := b.k9
@@ -86,9 +86,9 @@ theorem finish_branch (c : Cfg) (ar aq : Nat) (s : S) (r : Reason) (b : Base c a
     · subst hh; simp [sendHijack, orFlag, hrst]
 
 /-- `Base` after the retry decision -/
-theorem base_rsRetry (c : Cfg) (ar aq : Nat) (s : S) (reason : Option Reason) (b : Base c ar aq s) (hcl : s.cleaned = false)
-    (how : c.oneway = false) : Base c ar aq (rsRetry c s reason).1 := by
-  apply base_transfer c ar aq s _ b (by simp [hcl]) how <;> try simp
+theorem base_rsRetry (c : Cfg) (ar aq : Nat) (s : S) (reason : Option Reason) (b : Base c ar aq s) (hcl : s.cleaned = false) :
+    Base c ar aq (rsRetry c s reason).1 := by
+  apply base_transfer c ar aq s _ b (by simp [hcl]) (by simpa [K21] using b.k21) <;> try simp
   · exact hcl
   · have := (rsRetry_facts c s reason).2.2.2
     have h9 := b.k9
@@ -117,7 +117,7 @@ theorem upreset_branch (c : Cfg) (ar aq : Nat) (s : S) (b : Base c ar aq s) (hru
   · exact finish_branch c ar aq s _ b hrun hcl how h3 h6 hpd hsr hpass hup hlc hrst hphase
   · -- a retry is considered
     have hf := rsRetry_facts c s (some s.resetReason)
-    have hb1 := base_rsRetry c ar aq s (some s.resetReason) b hcl how
+    have hb1 := base_rsRetry c ar aq s (some s.resetReason) b hcl
     generalize hs1 : rsRetry c s (some s.resetReason) = res at hf hb1
     obtain ⟨s1, chk⟩ := res
     simp only at hf hb1 ⊢
